@@ -9,6 +9,35 @@ VERIF = os.path.dirname(os.path.dirname(os.path.abspath(__file__)))
 
 # id -> (category, technique, level text, level note, design ref)
 CHECKS = {
+    "C01": (
+        "exploration",
+        "Hypothesis token soup / nesting ladders / template universes x 12 languages through parse_string; totality oracle + deterministic "
+        "call-count budget + doubling growth law (systematic for every lexeme); failures bucketed by innermost repo frame and ddmin-shrunk",
+        "Tens of thousands of generated inputs per run over the full wikitext alphabet (every scanner token, every allowed and extension tag, "
+        "ill-formed/out-of-range entities, control and non-BMP characters, nesting to depth 40, recursive templates); 'never hangs / no "
+        "blow-up' is decided by counting Python call events against a polynomial budget and by a doubling law on repeated units, not by "
+        "wall-clock time. Sampled; absence of failures is evidence over the generated space only.",
+        "Work inside Cython/C code is not counted (60 s CPU alarm as backstop); nesting deeper than 40 is excluded by the property.",
+        "DESIGN.md section 2 C01",
+    ),
+    "C05": (
+        "exploration",
+        "same generators as C01 (+ cleaner-trigger lexemes); independent iterative tree validator after build_advanced_tree and after each of "
+        "the 58 cleaning passes applied one by one; writers' container contract after the full sequence",
+        "An identity-based validator written without reference to advtree's own validators decides tree well-formedness after every single "
+        "pass on thousands of generated trees per run; the failing pass is part of the bucket.",
+        "Trees that cannot be obtained (parse failure, raising pass) are C01's / C06's findings and are skipped here.",
+        "DESIGN.md section 2 C05",
+    ),
+    "C06": (
+        "exploration",
+        "same driver as C05: every pass must return within the call budget 1e6+2e3*nodes^2, fixed-point passes must be at their fixed point, "
+        "clean_all() must record no swallowed ERROR report",
+        "Each of the 58 pass applications is run on thousands of generated trees per run with exceptions bucketed by (pass, innermost frame); "
+        "evidence lists which passes actually changed a tree so that unreached passes are visible.",
+        "Passes that only set attributes are not visible in the 'changed' statistics (structural hash); rtl-only passes are not switched on.",
+        "DESIGN.md section 2 C06",
+    ),
     "C10": (
         "exploration",
         "exhaustive itertools.product over scanner lexeme sequences (<=3 full table, 4 core table; thorough <=4 full) + "
